@@ -28,7 +28,7 @@ man = {
         "name": "lean-model+correspondence",
         "path": "lean/ + harness/",
         "serves_properties": sorted(table["checks"].keys()),
-        "kind_free_text": "Lean 4 models and theorems (lake build, #print axioms audit) tied to /repo by a differential line-protocol correspondence harness and, for C06 / C07 / C13, by models regenerated from the running code on every run (recorded torch programs and State-operation footprints translated to Lean IR and decided by proved analyses)",
+        "kind_free_text": "Lean 4 models and theorems (lake build, #print axioms audit) tied to /repo by a differential line-protocol correspondence harness and, for C06 / C07 / C11 / C13, by models regenerated from the running code on every run (recorded torch programs, random-draw programs and State-operation footprints translated to Lean IR and decided by proved analyses)",
     }],
     "checks": [],
     "notes": table.get("notes", ""),
